@@ -863,13 +863,15 @@ func main() {
 	n := flag.Int("n", 100, "number of cases")
 	seed := flag.Uint64("seed", 1, "seed")
 	one := flag.Uint64("one", 0, "run the single case with this case seed")
+	procs := flag.Int("procs", 1, "GOMAXPROCS (1 = deterministic; more lets ReleaseIPs' per-block goroutines run in parallel)")
 	out := os.Stdout
 	os.Stdout = os.Stderr // the testing framework prints PASS to stdout
 	logrus.SetLevel(logrus.PanicLevel)
 	// ReleaseIPs serves the blocks of one request in parallel goroutines, bounded by GOMAXPROCS: one processor makes
 	// the run sequential and therefore deterministic (see the report: with more, the goroutines share and mutate one
 	// cached handle object).
-	runtime.GOMAXPROCS(1)
+	flag.Parse()
+	runtime.GOMAXPROCS(*procs)
 	enc := json.NewEncoder(out)
 	testing.Main(func(pat, str string) (bool, error) { return true, nil },
 		[]testing.InternalTest{{Name: "TestVerifC21", F: func(t *testing.T) {
